@@ -8,17 +8,20 @@
    its own default / frozen value). *)
 From PG Require Import Common.Tactics Model.Typing Proofs.TypingBasics Proofs.TypingApply
                        Proofs.TypingCompat Proofs.TypingExtend Proofs.TypingDict Proofs.TypingApplyDict
-                       Proofs.TypingCompatDict Proofs.TypingTheorems Proofs.TypingExtendFrozen.
+                       Proofs.TypingCompatDict Proofs.TypingUnion Proofs.TypingUnionCompat Proofs.TypingTheorems
+                       Proofs.TypingExtendFrozen.
 Local Open Scope Z_scope.
 
 (* Applying a spec to a value it accepts yields a value it accepts again and maps to itself:
-   every spec class but Union — Bool/Int/Float/Str/Enum/Object/Any, List, Tuple (fixed and
-   variable), Dict (schema-less, const keys, StrKey() field; keys distinct as in any Python dict)
-   — any ranges, sizes, flags (noneable, default, frozen), nesting, allow_partial or not.
-   Missing from the full statement: Union (refuted below). *)
-Theorem C04_apply_idempotent_partial : forall s, no_union s = true -> keys_ok s = true ->
+   every spec class — Bool/Int/Float/Str/Enum/Object/Any, List, Tuple (fixed and variable), Dict
+   (schema-less, const keys, StrKey() field; keys distinct as in any Python dict) and Union — with
+   any ranges, sizes, flags (noneable, default, frozen), nesting, allow_partial or not, provided
+   the candidates of every Union are not frozen, not Unions themselves and have a value type
+   ([union_plain], decidable; a spec without Union satisfies it).  Without that proviso the
+   statement is false (next theorem). *)
+Theorem C04_apply_idempotent_partial : forall s, union_plain s = true -> keys_ok s = true ->
   forall p v v', apply p s v = Ok v' -> apply p s v' = Ok v'.
-Proof. exact apply_idempotent. Qed.
+Proof. exact apply_idempotent_plain. Qed.
 Print Assumptions C04_apply_idempotent_partial.
 
 (* Union.apply is not idempotent in general (open finding): the accepting candidate's frozen value
@@ -29,12 +32,12 @@ Proof. exact union_idempotence_refuted. Qed.
 Print Assumptions C04_apply_idempotent_union_refuted.
 
 (* A spec's own default is acceptable to it: the constructors store what apply (allow_partial)
-   returns for the given default, then set the frozen flag.  Same fragment (no Union). *)
+   returns for the given default, then set the frozen flag.  Same fragment. *)
 Theorem C04_default_acceptable_partial : forall s d d' fz,
-  no_union s = true -> keys_ok s = true ->
+  union_plain s = true -> keys_ok s = true ->
   apply true (unfreeze s) d = Ok d' ->
   apply true (with_mods s (Mods (noneable (mods_of s)) (Some d') fz)) d' = Ok d'.
-Proof. exact default_acceptable. Qed.
+Proof. exact default_acceptable_plain. Qed.
 Print Assumptions C04_default_acceptable_partial.
 
 (* If a declares itself compatible with b, every value of b is accepted by a.  With every quirk
@@ -153,3 +156,18 @@ Theorem C04_compat_sound_current_code_partial : forall q a b,
   forall v, total v = true -> conforms b v -> accepts a v.
 Proof. intros q a b NU AV. exact (compat_sound_avoiding q a NU AV b). Qed.
 Print Assumptions C04_compat_sound_current_code_partial.
+
+(* Union receivers: compat is sound — for any quirk flags, under [avoids] — for every receiver
+   whose Unions have a safe dispatch ([union_safe], decidable: unfrozen Bool/Int/Float/Str/List/
+   Tuple/Dict/Object candidates with pairwise unrelated value types), against any sender whose own
+   Unions dispatch plainly.  This contains C04_compat_sound_current_code_partial (a spec without
+   Union is union_safe) and, with all flags off, C04_compat_sound_partial.  Union([Int(5..5),
+   Bool()]) (related types) and Unions with Any / Enum / frozen candidates stay outside: they are
+   refuted by C04_compat_union_receiver_refuted. *)
+Theorem C04_compat_sound_union_partial : forall q a b,
+  union_safe a = true -> avoids q a = true ->
+  wf a -> wf b -> keys_ok b = true -> sizes_ok b = true -> union_plain b = true ->
+  compat q a b = true ->
+  forall v, total v = true -> conforms b v -> accepts a v.
+Proof. intros q a b US AV. exact (compat_sound_union q a US AV b). Qed.
+Print Assumptions C04_compat_sound_union_partial.
